@@ -282,10 +282,16 @@ def shard_worker(prop_id, part_name, tier, seed, shard, nshards, n_examples, bud
             strat = part.strategy(tier)
             do_shrink = part.shrink if tier == "thorough" else part.shrink_quick
             phases = [Phase.generate] + ([Phase.shrink] if do_shrink else [])
+            # Hypothesis always starts with the all-minimal example: with one or two examples per shard every
+            # shard would run the same case, so tiny shards draw one more example and skip that first one
+            skip_first = n_examples <= 3
             for rnd in range(MAX_ROUNDS):
-                state = dict(target=None, last=None, detail=None)
+                state = dict(target=None, last=None, detail=None, calls=0)
 
                 def body(case):
+                    state["calls"] += 1
+                    if skip_first and state["calls"] == 1 and state["target"] is None:
+                        return
                     if time.time() > deadline:
                         res["inconclusive"] = True
                         return
@@ -304,7 +310,7 @@ def shard_worker(prop_id, part_name, tier, seed, shard, nshards, n_examples, bud
 
                 test = given(case=strat)(body)
                 test = settings(
-                    max_examples=max(1, n_examples),
+                    max_examples=max(1, n_examples) + (1 if skip_first else 0),
                     database=None,
                     deadline=None,
                     report_multiple_bugs=False,
